@@ -349,6 +349,13 @@ def run(repo, chk):
     t = norm(ms.node)
     chk.ob("R15.5", "selector.make_symbol:focus-only-at-root", "focus = context == 'root'" in t and "frozenset({1}) if focus else frozenset()" in t, ms.where,
            "a bare symbol is focused only in the root context (inside parentheses it needs `!`)")
+    ma = repo.func("selector.make_as")
+    t = norm(ma.node)
+    chk.ob("R15.5", "selector.make_as:call-alias-focuses-#value-only-at-root", "focus = context == 'root'" in t and "name='#value'" in t and
+           "tags=name.tags or (frozenset({1}) if focus else frozenset())" in t, ma.where,
+           "`f() as r` adds the capture #value as r, focused exactly when written at the root (f() as r == f(!#value as r))")
+    chk.ob("R15.5", "selector.make_as:variable-alias-keeps-tags", "return element.clone(capture=name.name, tags=element.tags | name.tags)" in t, ma.where,
+           "`x as y` renames the capture and keeps the focus of either side")
     mf = repo.func("selector.make_focus")
     chk.ob("R15.5", "selector.make_focus:!-is-with_focus", "return element.with_focus()" in norm(mf.node), mf.where, "`!x` focuses x")
 
